@@ -45,6 +45,11 @@ def _work(job):
             c = reg.contracts[uname]
             r = verify.verify_unit(c, do_cross=(cases is None or 0 in cases), cross_n=opts.get('cross_n', 30), seed=opts.get('seed', 0), both=opts.get('both', False), cases=cases)
             s = r.summary()
+            if (cases is None or 0 in cases) and not s.get('error'):
+                try:
+                    s['native_sampling'] = verify.native_sampling(c, verify.target_function(c), opts.get('native_n', 150), opts.get('seed', 0))
+                except Exception as ex:
+                    s['native_sampling'] = {'evaluations': 0, 'distinct': 0, 'violations': [], 'error': repr(ex)}
             if cases is not None:
                 s['unit'] = "%s[cases %d-%d]" % (uname, cases[0], cases[-1])
             return kind, (uname if cases is None else s['unit']), s
@@ -58,9 +63,14 @@ def _work(job):
             spec_ = c.canaries[idx]
             target = c.target
             tf = f
-            if len(spec_) == 3:         # (other function target, old, new): mutate a callee that is inlined
-                target = spec_[0]
-                tf = verify.resolve(target)
+            if len(spec_) == 3:         # (other function target or getter, old, new): mutate a callee that is inlined
+                if callable(spec_[0]):
+                    tf = spec_[0]()
+                    from pyvc.interp import qualname_of
+                    target = qualname_of(tf)
+                else:
+                    target = spec_[0]
+                    tf = verify.resolve(target)
                 old, new = spec_[1], spec_[2]
             else:
                 old, new = spec_
@@ -68,7 +78,8 @@ def _work(job):
             r = verify.verify_unit(c, mutate=mut, do_cross=False, both=False)
             s = r.summary()
             killed = len(s['failed']) > 0
-            return kind, name, {'unit': cname, 'mutation': "%s: %r -> %r" % (target, old, new), 'killed': killed,
+            flagged = killed or len(s['undecided']) > 0 or len(s['unsupported']) > 0
+            return kind, name, {'unit': cname, 'mutation': "%s: %r -> %r" % (target, old, new), 'killed': killed, 'flagged': flagged,
                                 'failed_clauses': sorted({o['clause'] for o in s['failed']}),
                                 'witness': (s['failed'][0].get('replay') or {}).get('inputs') if killed else None,
                                 'error': s['error'], 'unsupported': s['unsupported'][:2], 'secs': s['secs']}
@@ -213,7 +224,13 @@ def check(args):
             print("CHECKER-CRASH contract module %s failed to import:\n%s" % (name, err))
             return 3
     both = tier == 'thorough'
-    opts = {'seed': seed, 'both': both, 'tier': tier, 'cross_n': 30 if tier == 'quick' else 150}
+    opts = {'seed': seed, 'both': both, 'tier': tier, 'cross_n': 30 if tier == 'quick' else 150, 'native_n': 150 if tier == 'quick' else 1500}
+    import glob as _g
+    for old_ in _g.glob(os.path.join(ROOT, 'replays', pid + '-*.json')):
+        try:
+            os.unlink(old_)
+        except OSError:
+            pass
     jobs = []
     units = [k for k, c_ in reg.contracts.items() if pid in c_.props and c_.verify]
     assumed = [k for k, c_ in reg.contracts.items() if pid in c_.props and not c_.verify]
